@@ -343,6 +343,14 @@ def run_lints(prog, rep, reach, tag, only_rules=None):
                            "and shared by every run of the process", f"pdb2pqr/{rel}:{st.lineno}")
                 if ctor in SAFE_CTORS or ctor in ("list", "dict", "set", "OrderedDict", "defaultdict"):
                     continue
+                last = ctor.split(".")[-1]
+                if last in ("MappingProxyType", "tuple", "frozenset", "Path", "PurePath", "PurePosixPath"):
+                    continue  # immutable values (a read-only view of a literal mapping, a tuple built by a generator, a path)
+                rec = [c_ for c_ in prog.classes_by_name.get(last, []) if any(U(b).split(".")[-1] == "NamedTuple" for k_ in prog.mro(c_) for b in k_.node.bases)
+                       or any(U(d).replace(" ", "").startswith(("dataclass(frozen=True", "dataclasses.dataclass(frozen=True")) for d in c_.node.decorator_list)]
+                if rec and all(not isinstance(a, (ast.List, ast.Dict, ast.Set)) for a in st.value.args) and not any(
+                        isinstance(k.value, (ast.List, ast.Dict, ast.Set)) for k in st.value.keywords):
+                    continue  # an instance of an immutable record class (NamedTuple, frozen dataclass) holding no mutable literal
                 for nm_ in names:
                     users = []
                     for key, f in prog.funcs.items():
